@@ -11,7 +11,7 @@ import sys
 import warnings
 
 from . import clock
-from .drive import HarnessError
+from .drive import HarnessError, ScenarioUnavailable  # noqa
 
 REPO_SRC = os.environ.get("VERIF_REPO_SRC", "/repo/src")
 PLUGIN_DIR = os.path.join(os.path.dirname(os.path.abspath(__file__)), "plugins")
